@@ -1103,6 +1103,36 @@ impl Prop for C04 {
             }
         }
 
+        // (0c) difficulty switches of every shape: nested at every position with every length (shorter, equal, longer than
+        // the position they sit at), side by side with different lengths, blank cases, in assignments / call arguments /
+        // conditions; each must compile or be rejected with a diagnostic ("mismatched diff switch lengths ...")
+        {
+            fn sw(rng: &mut Rng, depth: u32) -> String {
+                let n = 2 + rng.below(4);
+                let cases: Vec<String> = (0..n).map(|i| {
+                    if depth > 0 && rng.chance(1, 3) { format!("({})", sw(rng, depth - 1)) }
+                    else if i > 0 && rng.chance(1, 6) { String::new() }
+                    else { format!("{}", 1 + rng.below(9)) }
+                }).collect();
+                cases.join(" : ")
+            }
+            let n = if tier == Tier::Quick { 240 } else { 4000 };
+            for k in 0..n {
+                let g = *rng.pick(&[Game::Th06, Game::Th07, Game::Th08, Game::Th09, Game::Th095]);
+                let reg = if g == Game::Th06 { "$REG[-10001]" } else { "$REG[10000]" };
+                let a = format!("({})", sw(rng, 2));
+                let stmt = match k % 5 {
+                    0 => format!("    {reg} = {a};\n"),
+                    1 => format!("    {reg} = {a} + 1;\n"),
+                    2 => format!("    {reg} = {a} + ({});\n", sw(rng, 1)),
+                    3 => format!("    if ({reg} == {a}) goto end;\n    {reg} = 1;\nend:\n"),
+                    _ => format!("    {reg} = {reg} * {a};\n    {reg} = ({}) - {a};\n", sw(rng, 0)),
+                };
+                let text = format!("script timeline0 {{ }}\nvoid sub0() {{\n{stmt}}}\n");
+                out.push(compile_case("difficulty-switch-shapes", Format::Ecl, g, &[MapArg::Load(gensrc::ECL_DIFFICULTY_MAP.as_bytes().to_vec())], text.as_bytes()));
+            }
+        }
+
         // (1) well-formed files and their mutants
         let bases = base_pool(rng, 60 * scale.min(8), 60 * scale.min(8));
         for b in &bases {
